@@ -168,3 +168,8 @@ def run(ctx):
     rule_a(ctx)
     rule_b(ctx)
     rule_c(ctx)
+    # the cost functional integrates the cell flux that face_to_cell reconstructs at the quadrature points (C06.c)
+    from . import c06
+    from .common import shared
+
+    shared(ctx, "C05.b", c06.rule_c, why="the transport cost is the quadrature of |face_to_cell(flux, pt)|")
